@@ -326,21 +326,22 @@ theorem QueueIdle.eff {s t : St} {T : Nat → Prop} (h : QueueIdle s) (e : Eff s
 /-- what `step_eff` says about one client that is not the acting one -/
 theorem step_frame {s t : St} {o : Obs} (op : Op) (hop : op.c16 = true) (hnc : ∀ k c, op ≠ .connect k c)
     (hs : step s op = .ok (t, o)) (g : Nat) (hg : op.client ≠ some g) (hb : (s.cli g).phase ≠ .backlog)
-    (hone : s.cfg.kind ≠ .oneshot) (hsp : s.cfg.spare = true ∨ ∀ k, op ≠ .releaseHook k) (hq : g ∉ s.queue) :
+    (hone : s.cfg.kind ≠ .oneshot) (hsp : s.cfg.spare = true ∨ s.cfg.kind ≠ .pool ∨ ∀ k, op ≠ .releaseHook k) (hq : g ∉ s.queue) :
     Same (s.cli g) (t.cli g) ∧ (s.cfg.kind ≠ .pool → t.cli g = s.cli g) := by
   have hnx : ∀ k j, op ≠ .connectReuse k j := by
     intro k j h; subst h; simp [Op.c16] at hop
   have hns : op ≠ .serverClose := by intro h; subst h; simp [Op.c16] at hop
   have e := step_eff op hns hnc hnx hs
   have hT : ¬ (some g = op.client ∨ (s.cli g).phase = .backlog ∨ s.cfg.kind = .oneshot ∨
-      ((∃ k, op = .releaseHook k) ∧ s.cfg.spare = false)) := by
+      ((∃ k, op = .releaseHook k) ∧ s.cfg.spare = false ∧ s.cfg.kind = .pool)) := by
     intro h
-    rcases h with h | h | h | ⟨⟨k, hk⟩, h⟩
+    rcases h with h | h | h | ⟨⟨k, hk⟩, h, hp⟩
     · exact hg h.symm
     · exact hb h
     · exact hone h
-    · rcases hsp with h1 | h1
+    · rcases hsp with h1 | h1 | h1
       · rw [h1] at h; cases h
+      · exact h1 hp
       · exact h1 k hk
   exact ⟨e.frame g hT hq, fun hp => e.exact hp g hT hq⟩
 
@@ -362,9 +363,7 @@ theorem others_untouched {s t : St} {o : Obs} (hk : s.cfg.kind = .threaded ∨ s
         intro h; rcases h with h | h
         · rw [f12 g hgk] at h; exact hb h
         · rw [f1] at h; exact hone h) (by rw [f8, hq]; simp), f12 g hgk]
-  · refine (step_frame op hop (fun k c h => hc ⟨k, c, h⟩) hs g hg hb hone (Or.inr ?_) (by rw [hq]; simp)).2 hpool
-    intro k h; subst h
-    simp [step, hpool] at hs
+  · exact (step_frame op hop (fun k c h => hc ⟨k, c, h⟩) hs g hg hb hone (Or.inr (Or.inl hpool)) (by rw [hq]; simp)).2 hpool
 
 /-- the same for the pool - whose end-of-stream path removes only the connection it was serving
 (`cfg.spare`, the repaired code) -, up to membership of `Server.clients`, for a client that is not waiting in the queue -/
@@ -405,6 +404,8 @@ theorem newcomer_on_reused_number {s t : St} {o : Obs} (k j g : Nat) (hs : step 
 
 @[simp] theorem afterEnd_queue (s : St) (k : Nat) : (afterEnd s k).queue = s.queue := by
   unfold afterEnd; split <;> simp
+@[simp] theorem dedRelease_queue (s : St) (k : Nat) : (dedRelease s k).queue = s.queue := by
+  unfold dedRelease; simp
 @[simp] theorem applyConsumed_queue (s : St) (k : Nat) (r : Cli × Nat) : (applyConsumed s k r).queue = s.queue := by
   unfold applyConsumed; split <;> simp
 @[simp] theorem runDedicated_queue (s : St) (k : Nat) : (runDedicated s k).queue = s.queue := by
@@ -431,7 +432,7 @@ theorem acceptAll_queue (l : List Nat) (s : St) (hk : s.cfg.kind ≠ .pool) : (a
     · exact ih s hk
 
 theorem wake_queue (s : St) (k : Nat) (hk : s.cfg.kind ≠ .pool) : (wake s k).queue = s.queue := by
-  unfold wake; split <;> (try split) <;> (try split) <;> simp_all
+  unfold wake; split <;> (try split) <;> (try split) <;> (try split) <;> simp_all
 
 theorem send_queue (s : St) (k : Nat) (l : List Item) (hk : s.cfg.kind ≠ .pool) : (send s k l).queue = s.queue := by
   unfold send; split
@@ -479,7 +480,10 @@ theorem step_queue {s t : St} {o : Obs} (op : Op) (hk : s.cfg.kind ≠ .pool) (h
   | connectReuse k j =>
     obtain ⟨rfl, _, _, _, _, _⟩ := step_connectReuse h
     rw [acceptAll_queue _ _ (by simpa [joinedReuse] using hk)]; rfl
-  | releaseHook k => simp [step, hk] at h
+  | releaseHook k =>
+    simp only [step] at h; split at h
+    · cases h
+    · simp only [hk, if_false, Except.ok.injEq, Prod.mk.injEq] at h; rw [← h.1]; exact dedRelease_queue s k
 
 /-- pool: a descriptor waits in the queue only while every worker is blocked -/
 def QInv (s : St) : Prop := s.queue ≠ [] → freeWorkers s = 0
